@@ -139,6 +139,19 @@ def rule_R3(chk, repo, rid='C05.R3'):
                   'same definition of the layer ordering; the layer counter advances once per appended layer; '
                   'the start node sits at (0, 0).')
     fi = repo.func('mpo.MPO.from_opgraph')
+    # roles: the label list is the 2nd argument of the constructor call, the node map is what is stored as .nid_map
+    import copy as _copy
+    from ..canon import _Ren, CanonFunc
+    ren = {}
+    for n_ in ast.walk(fi.node):
+        if isinstance(n_, ast.Call) and norm(n_.func) == 'cls' and len(n_.args) >= 2 and isinstance(n_.args[1], ast.Name):
+            if n_.args[1].id != 'qD':
+                ren[n_.args[1].id] = 'qD'
+        if isinstance(n_, ast.Assign) and isinstance(n_.targets[0], ast.Attribute) and n_.targets[0].attr == 'nid_map' and \
+                isinstance(n_.value, ast.Name) and n_.value.id != 'nid_map':
+            ren[n_.value.id] = 'nid_map'
+    if ren:
+        fi = CanonFunc(fi, _Ren(ren).visit(_copy.deepcopy(fi.node)), ren)
     loop = None
     for s in fi.node.body:
         if isinstance(s, ast.While):
@@ -350,8 +363,11 @@ def rule_R5(chk, repo, rid='C05.R5'):
     n = 0
     fi = repo.func('opgraph._site_partition_halfchains')
     T = Taint(repo, fi, ['coeffs'], None)
+    rt = [r_ for r_ in ast.walk(fi.node) if isinstance(r_, ast.Return) and isinstance(r_.value, ast.Tuple) and
+          len(r_.value.elts) == 4]
+    ename = norm(rt[0].value.elts[2]) if rt else 'edges'
     dup = [s for s in ast.walk(fi.node) if isinstance(s, ast.If) and isinstance(s.test, ast.Compare) and
-           isinstance(s.test.ops[0], ast.In) and norm(s.test.comparators[0]) == 'edges']
+           isinstance(s.test.ops[0], ast.In) and norm(s.test.comparators[0]) == ename]
     ok = False
     detail = 'duplicate test `edge in edges` not found'
     if len(dup) == 1:
@@ -361,7 +377,7 @@ def rule_R5(chk, repo, rid='C05.R5'):
         ini = [x for x in f if isinstance(x, ast.Assign) and isinstance(x.targets[0], ast.Subscript) and
                T.expr_tainted(x.value)]
         reg = [x for x in ast.walk(ast.Module(body=f, type_ignores=[])) if isinstance(x, ast.Call) and
-               isinstance(x.func, ast.Attribute) and x.func.attr == 'append' and norm(x.func.value) == 'edges']
+               isinstance(x.func, ast.Attribute) and x.func.attr == 'append' and norm(x.func.value) == ename]
         same = bool(acc) and bool(ini) and norm(acc[0].target) == norm(ini[0].targets[0])
         ok = same and bool(reg)
         detail = f'duplicate branch: {[norm(x) for x in t][:2]}; first occurrence: {[norm(x) for x in f][:3]}'
